@@ -21,14 +21,20 @@ PIPELINES = [
     # same framework as pipeline 0 with another literal limit: a limit kept anywhere but in the generator instance would leak
     ([{"up": {"node": {"tag": "s", "n": 1}, "l": "a"}, "down": {"node": {"tag": "t", "n": 2}, "r": "x"}, "kind": "q1"},
       {"up": {"node": {"tag": "u", "n": 3}, "l": "b"}, "down": {"node": {"tag": "v", "n": 4}, "r": "y"}, "kind": "q2"}], "pydantic", "nested", 1),
+    # string converters switched on in two different frameworks (the decorator names its own framework)
+    ([{"count": "1", "ratio": "1.5", "flags": ["true", "false"], "child": {"n": "2"}}], "attrs", "flat", 10, {"post_init_converters": True}),
+    ([{"total": "7", "share": "2.5", "marks": ["false"], "kid": {"m": "3"}}], "dataclasses", "flat", 10, {"post_init_converters": True}),
+    # keys that need transliteration (any per-thread state of the label code is exercised from worker threads)
+    ([{"gr\u00f6\u00dfe": 1, "\u0438\u043c\u044f": "x", "na\u00efve": {"caf\u00e9": 2}}], "pydantic", "flat", 10),
 ]
 
 
 def run_one(i):
     from vflib import pipeline
-    samples, fw, layout, ml = PIPELINES[i]
+    samples, fw, layout, ml, *extra = PIPELINES[i]
     gen, reg, _ = pipeline.infer({"Root": copy.deepcopy(samples)})
     kw = {"meta": True} if fw in ("attrs", "dataclasses") else {}
+    kw.update(extra[0] if extra else {})
     return pipeline.emit(reg, fw, layout, max_literals=ml, **kw)
 
 
@@ -157,13 +163,14 @@ def scen_schedule(ch, params, out):
 
 def parts(tier):
     if tier == "quick":
-        return [CH("one_worker", "vflib.props.c15:scen_schedule", {"threads": 1, "pipeline_sets": [[0], [1], [2]], "preemptions": 0}, shards=1, timeout=120, path_timeout=60),
-                CH("two_workers", "vflib.props.c15:scen_schedule", {"threads": 2, "pipeline_sets": [[0, 3]], "preemptions": 2}, shards=2, timeout=170, path_timeout=90)]
+        return [CH("one_worker", "vflib.props.c15:scen_schedule", {"threads": 1, "pipeline_sets": [[0], [1], [2], [4], [6]], "preemptions": 0}, shards=1, timeout=120, path_timeout=60),
+                CH("two_workers", "vflib.props.c15:scen_schedule", {"threads": 2, "pipeline_sets": [[0, 3]], "preemptions": 2}, shards=2, timeout=170, path_timeout=90),
+                CH("two_workers_converters", "vflib.props.c15:scen_schedule", {"threads": 2, "pipeline_sets": [[4, 5]], "preemptions": 2}, shards=2, timeout=170, path_timeout=90)]
     return [CH("one_worker", "vflib.props.c15:scen_schedule", {"threads": 1, "pipeline_sets": [[0], [1], [2]], "preemptions": 0}, shards=1, timeout=120, path_timeout=60),
-            CH("two_workers", "vflib.props.c15:scen_schedule", {"threads": 2, "pipeline_sets": [[0, 1], [1, 2], [0, 3], [3, 2]], "preemptions": 2}, shards=2, timeout=900, path_timeout=90),
-            CH("three_workers", "vflib.props.c15:scen_schedule", {"threads": 3, "pipeline_sets": [[0, 1, 2]], "preemptions": 2}, shards=3, timeout=900, path_timeout=90),
+            CH("two_workers", "vflib.props.c15:scen_schedule", {"threads": 2, "pipeline_sets": [[0, 1], [1, 2], [0, 3], [3, 2], [4, 5], [6, 0]], "preemptions": 2}, shards=2, timeout=400, path_timeout=90),
+            CH("three_workers", "vflib.props.c15:scen_schedule", {"threads": 3, "pipeline_sets": [[0, 1, 2]], "preemptions": 2}, shards=3, timeout=400, path_timeout=90),
             CH("two_workers_context_only_all_interleavings", "vflib.props.c15:scen_schedule",
-               {"threads": 2, "pipeline_sets": [[0, 1]], "preemptions": 40, "extra_points": False}, shards=2, timeout=900, path_timeout=90)]
+               {"threads": 2, "pipeline_sets": [[0, 1]], "preemptions": 40, "extra_points": False}, shards=2, timeout=400, path_timeout=90)]
 
 
 META = {
